@@ -7,7 +7,7 @@ import itertools
 
 KEYS = [[], [97], [98], [97, 97], [97, 98]]
 KEY_VARIANTS = "abcdef"
-EXTRA_UNITS = [49, 48, 50, 34, 92, 47, 9, 10, 120, 121, 122, 32, 126, 1, 127]
+EXTRA_UNITS = [49, 48, 50, 34, 92, 47, 9, 10, 120, 121, 122, 32, 126, 1, 127, 58, 43, 45]
 
 REALS = ["0000000000000000", "3ff8000000000000", "c006000000000000", "4008000000000000", "3fb999999999999a",
          "4202a05f20000000", "419d6f3454800000", "bfe0000000000000"]
